@@ -1,3 +1,815 @@
+//! C07 witness searches: RETE agenda order, no-loop, activation-group exclusivity, and termination of every fire_all.
+//!
+//! Agenda part: histories of add_activation / get_next_activation (+ mark_rule_fired) / set_focus / reset_fired_flags /
+//! clear on `AdvancedAgenda`, checked against a REFERENCE written from the statement:
+//!   * an activation that comes out must be pending, must not be a no-loop activation of a rule already fired since
+//!     the last reset, and must not belong to an activation group of which ANOTHER rule fired since the last reset;
+//!   * it must come from the focused agenda group whenever that group holds an eligible pending activation (otherwise
+//!     from a group that was focused earlier), and no eligible pending activation of its group may be ahead of it
+//!     (higher salience, or equal salience and created earlier; creation instants are set explicitly, so there is
+//!     no wall-clock dependence);
+//!   * None may come out only if the focused group holds no eligible pending activation.
+//! What the statement leaves open is left open: an activation that was ineligible when a pop passed over it, or that
+//! was added while its activation group had fired, or that is lock-on-active in a group where a lock-on-active
+//! activation fired, may or may not come out later ("maybe" status: it constrains nothing, but if it comes out it is
+//! still subject to the no-loop / activation-group rules).
+//!
+//! Termination part: always-true rules with no_loop = false on IncrementalEngine, TypedReteUlEngine, ReteUlEngine,
+//! each call in a thread with a 20 s watchdog; the number of reported firings is compared with the iteration bound.
+//!
+//! Register in main.rs with `mod c07;` and `all.extend(c07::witnesses());`.
+use rust_rule_engine::rete::grl_loader::GrlReteLoader;
+use rust_rule_engine::rete::propagation::IncrementalEngine;
+use rust_rule_engine::rete::{Activation, AdvancedAgenda, AlphaNode, ReteUlEngine, ReteUlNode, TypedFacts, TypedReteUlEngine, TypedReteUlRule};
+use std::collections::{BTreeMap, BTreeSet};
+use std::sync::atomic::{AtomicUsize, Ordering};
+use std::sync::{mpsc, Arc};
+use std::time::{Duration, Instant};
+
+// ------------------------------------------------------------------------------------------------ agenda model
+
+#[derive(Clone, Copy, Debug, PartialEq)]
+struct T {
+    rule: u8,
+    sal: i32,
+    ag: u8,
+    actg: Option<u8>,
+    no_loop: bool,
+    lock: bool,
+}
+
+#[derive(Clone, Debug)]
+enum Op {
+    /// add an activation; the second field is an explicit creation instant (ms after the base), default = its index
+    Add(T, Option<u64>),
+    /// get_next_activation followed by mark_rule_fired on what came out
+    Fire,
+    /// get_next_activation alone
+    Pop,
+    Focus(u8),
+    Reset,
+    Clear,
+}
+
+const AG: [&str; 3] = ["MAIN", "G", "H"];
+const ACTG: [&str; 2] = ["X", "Y"];
+const RULES: [&str; 3] = ["a", "b", "c"];
+
+fn show_t(t: &T, created: u64) -> String {
+    format!(
+        "{{rule {} salience {} group {} activation-group {} no_loop {} lock_on_active {} created t+{}ms}}",
+        RULES[t.rule as usize],
+        t.sal,
+        AG[t.ag as usize],
+        t.actg.map(|g| ACTG[g as usize]).unwrap_or("-"),
+        t.no_loop,
+        t.lock,
+        created
+    )
+}
+
+fn show_ops(ops: &[Op]) -> String {
+    let mut n = 0u64;
+    ops.iter()
+        .map(|o| match o {
+            Op::Add(t, c) => {
+                let s = format!("add#{} {}", n, show_t(t, c.unwrap_or(n)));
+                n += 1;
+                s
+            }
+            Op::Fire => "get_next+mark_fired".to_string(),
+            Op::Pop => "get_next".to_string(),
+            Op::Focus(g) => format!("set_focus({})", AG[*g as usize]),
+            Op::Reset => "reset_fired_flags".to_string(),
+            Op::Clear => "clear".to_string(),
+        })
+        .collect::<Vec<_>>()
+        .join("; ")
+}
+
+#[derive(Clone, Debug)]
+struct P {
+    tag: usize,
+    t: T,
+    created: u64,
+    /// false = may already have been discarded (see module comment)
+    certain: bool,
+}
+
+enum El {
+    Blocked(String),
+    Maybe,
+    Yes,
+}
+
+struct Model {
+    pending: Vec<P>,
+    fired_rules: BTreeSet<u8>,
+    fired_groups: BTreeMap<u8, BTreeSet<u8>>,
+    locks: BTreeSet<u8>,
+    focus: u8,
+    ever_focused: BTreeSet<u8>,
+    next: usize,
+}
+
+fn ahead(p: &P, q: &P) -> bool {
+    p.t.sal > q.t.sal || (p.t.sal == q.t.sal && p.created < q.created)
+}
+
+impl Model {
+    fn new() -> Self {
+        Model {
+            pending: vec![],
+            fired_rules: BTreeSet::new(),
+            fired_groups: BTreeMap::new(),
+            locks: BTreeSet::new(),
+            focus: 0,
+            ever_focused: [0u8].into_iter().collect(),
+            next: 0,
+        }
+    }
+    fn elig(&self, p: &P) -> El {
+        if p.t.no_loop && self.fired_rules.contains(&p.t.rule) {
+            return El::Blocked(format!("no-loop rule {} came out again although it fired since the last reset", RULES[p.t.rule as usize]));
+        }
+        if let Some(g) = p.t.actg {
+            if let Some(rs) = self.fired_groups.get(&g) {
+                if rs.iter().any(|r| *r != p.t.rule) {
+                    return El::Blocked(format!(
+                        "rule {} of activation group {} came out although rule {} of that group fired since the last reset",
+                        RULES[p.t.rule as usize],
+                        ACTG[g as usize],
+                        RULES[*rs.iter().find(|r| **r != p.t.rule).unwrap() as usize]
+                    ));
+                }
+                if !rs.is_empty() {
+                    return El::Maybe;
+                }
+            }
+        }
+        if p.t.lock && self.locks.contains(&p.t.ag) {
+            return El::Maybe;
+        }
+        El::Yes
+    }
+    fn sure(&self, p: &P) -> bool {
+        p.certain && matches!(self.elig(p), El::Yes)
+    }
+    fn add(&mut self, t: T, created: Option<u64>) -> P {
+        let tag = self.next;
+        self.next += 1;
+        let certain = t.actg.map(|g| self.fired_groups.get(&g).map(|s| s.is_empty()).unwrap_or(true)).unwrap_or(true);
+        let p = P { tag, t, created: created.unwrap_or(tag as u64), certain };
+        self.pending.push(p.clone());
+        p
+    }
+    fn pop(&mut self, got: Option<&Activation>, focus_after: &str, mark: bool) -> Result<(), String> {
+        let f = self.focus;
+        let sure_in = |m: &Model, g: u8| -> Vec<P> { m.pending.iter().filter(|p| p.t.ag == g && m.sure(p)).cloned().collect() };
+        match got {
+            None => {
+                if let Some(p) = sure_in(self, f).first() {
+                    return Err(format!("get_next_activation returned None while {} is pending and eligible in the focused group {}", show_t(&p.t, p.created), AG[f as usize]));
+                }
+                let flags: Vec<bool> = self.pending.iter().map(|p| self.sure(p)).collect();
+                for (p, s) in self.pending.iter_mut().zip(flags) {
+                    if !s {
+                        p.certain = false;
+                    }
+                }
+                if let Some(i) = AG.iter().position(|n| *n == focus_after) {
+                    self.focus = i as u8;
+                }
+                Ok(())
+            }
+            Some(x) => {
+                let tag = x.condition_count;
+                let idx = match self.pending.iter().position(|p| p.tag == tag) {
+                    Some(i) => i,
+                    None => return Err(format!("activation add#{} (rule {}) came out although it is not pending (it came out before, or was cleared)", tag, x.rule_name)),
+                };
+                let p = self.pending[idx].clone();
+                if x.rule_name != RULES[p.t.rule as usize] || x.salience != p.t.sal || x.agenda_group != AG[p.t.ag as usize] {
+                    return Err(format!("activation add#{} came out altered: {:?}", tag, x));
+                }
+                if let El::Blocked(why) = self.elig(&p) {
+                    return Err(why);
+                }
+                let g = p.t.ag;
+                if g != f {
+                    if let Some(q) = sure_in(self, f).first() {
+                        return Err(format!(
+                            "{} of group {} came out while the focused group {} holds the eligible pending {}",
+                            show_t(&p.t, p.created),
+                            AG[g as usize],
+                            AG[f as usize],
+                            show_t(&q.t, q.created)
+                        ));
+                    }
+                    if !self.ever_focused.contains(&g) {
+                        return Err(format!("{} came out although its agenda group {} never had the focus", show_t(&p.t, p.created), AG[g as usize]));
+                    }
+                }
+                for q in sure_in(self, g) {
+                    if q.tag != p.tag && ahead(&q, &p) {
+                        return Err(format!("{} came out before the eligible pending {} (order: descending salience, earlier created first)", show_t(&p.t, p.created), show_t(&q.t, q.created)));
+                    }
+                }
+                if focus_after != AG[g as usize] {
+                    return Err(format!("{} came out of group {} but get_focus() = {}", show_t(&p.t, p.created), AG[g as usize], focus_after));
+                }
+                // whatever was ineligible and not strictly behind the returned activation in its own group may have been discarded
+                let flags: Vec<bool> = self.pending.iter().map(|q| self.sure(q) || (q.t.ag == g && ahead(&p, q))).collect();
+                for (q, s) in self.pending.iter_mut().zip(flags) {
+                    if !s {
+                        q.certain = false;
+                    }
+                }
+                self.pending.remove(idx);
+                self.focus = g;
+                if mark {
+                    self.fired_rules.insert(p.t.rule);
+                    if let Some(ag) = p.t.actg {
+                        self.fired_groups.entry(ag).or_default().insert(p.t.rule);
+                    }
+                    if p.t.lock {
+                        self.locks.insert(p.t.ag);
+                    }
+                }
+                Ok(())
+            }
+        }
+    }
+}
+
+fn make(t: &T, tag: usize, created: u64, base: Instant) -> Activation {
+    let mut a = Activation::new(RULES[t.rule as usize].to_string(), t.sal)
+        .with_agenda_group(AG[t.ag as usize].to_string())
+        .with_no_loop(t.no_loop)
+        .with_lock_on_active(t.lock)
+        .with_condition_count(tag); // the tag identifies the activation when it comes out (unused by the default strategy)
+    if let Some(g) = t.actg {
+        a = a.with_activation_group(ACTG[g as usize].to_string());
+    }
+    a.created_at = base + Duration::from_millis(created);
+    a
+}
+
+/// replay one history on a fresh agenda; Some(description) on the first departure from the reference
+fn replay(ops: &[Op]) -> Option<String> {
+    let base = Instant::now();
+    let mut ag = AdvancedAgenda::new();
+    let mut m = Model::new();
+    for (i, op) in ops.iter().enumerate() {
+        let r: Result<(), String> = match op {
+            Op::Add(t, c) => {
+                let p = m.add(*t, *c);
+                ag.add_activation(make(t, p.tag, p.created, base));
+                Ok(())
+            }
+            Op::Fire | Op::Pop => {
+                let got = ag.get_next_activation();
+                let mark = matches!(op, Op::Fire);
+                if mark {
+                    if let Some(a) = &got {
+                        ag.mark_rule_fired(a);
+                    }
+                }
+                let fa = ag.get_focus().to_string();
+                m.pop(got.as_ref(), &fa, mark)
+            }
+            Op::Focus(g) => {
+                ag.set_focus(AG[*g as usize].to_string());
+                m.focus = *g;
+                m.ever_focused.insert(*g);
+                if ag.get_focus() != AG[*g as usize] {
+                    Err(format!("get_focus() = {} after set_focus({})", ag.get_focus(), AG[*g as usize]))
+                } else {
+                    Ok(())
+                }
+            }
+            Op::Reset => {
+                ag.reset_fired_flags();
+                m.fired_rules.clear();
+                m.fired_groups.clear();
+                m.locks.clear();
+                Ok(())
+            }
+            Op::Clear => {
+                ag.clear();
+                let next = m.next;
+                m = Model::new();
+                m.next = next;
+                Ok(())
+            }
+        };
+        if let Err(e) = r {
+            return Some(format!("{} -- at step {}: {}", show_ops(ops), i + 1, e));
+        }
+    }
+    None
+}
+
+// ------------------------------------------------------------------------------------------------ agenda searches
+
+const SAL: [i32; 7] = [i32::MIN, -2_000_000_000, -1, 0, 1, 2_000_000_000, i32::MAX];
+
+fn plain(rule: u8, sal: i32) -> T {
+    T { rule, sal, ag: 0, actg: None, no_loop: false, lock: false }
+}
+
+fn permutations(n: usize) -> Vec<Vec<u64>> {
+    fn rec(cur: &mut Vec<u64>, used: &mut Vec<bool>, out: &mut Vec<Vec<u64>>) {
+        if cur.len() == used.len() {
+            out.push(cur.clone());
+            return;
+        }
+        for i in 0..used.len() {
+            if !used[i] {
+                used[i] = true;
+                cur.push(i as u64);
+                rec(cur, used, out);
+                cur.pop();
+                used[i] = false;
+            }
+        }
+    }
+    let mut out = vec![];
+    rec(&mut vec![], &mut vec![false; n], &mut out);
+    out
+}
+
+/// order alone: every sequence of <= 4 activations with saliences from {i32::MIN, -2e9, -1, 0, 1, 2e9, i32::MAX}
+/// (pairs more than i32::MAX apart, ties), every assignment of distinct creation instants (also created earlier but
+/// added later), all added to MAIN and popped; plus every interleaving of add / pop of length <= 7 over three saliences.
+fn c07_order_extreme_salience_search() -> (bool, String) {
+    let mut tried = 0u64;
+    for n in 1..=4usize {
+        let perms = permutations(n);
+        let mut idx = vec![0usize; n];
+        loop {
+            for perm in &perms {
+                let mut ops: Vec<Op> = (0..n).map(|i| Op::Add(plain((i % 3) as u8, SAL[idx[i]]), Some(perm[i] * 2))).collect();
+                for _ in 0..=n {
+                    ops.push(Op::Fire);
+                }
+                tried += 1;
+                if let Some(v) = replay(&ops) {
+                    return (true, v);
+                }
+            }
+            // next salience vector
+            let mut k = 0;
+            while k < n {
+                idx[k] += 1;
+                if idx[k] < SAL.len() {
+                    break;
+                }
+                idx[k] = 0;
+                k += 1;
+            }
+            if k == n {
+                break;
+            }
+        }
+    }
+    // interleavings
+    let alphabet = [Op::Add(plain(0, -2_000_000_000), None), Op::Add(plain(1, 0), None), Op::Add(plain(2, 2_000_000_000), None), Op::Pop];
+    let mut stack: Vec<Vec<Op>> = vec![vec![]];
+    while let Some(s) = stack.pop() {
+        if !s.is_empty() {
+            tried += 1;
+            let mut full = s.clone();
+            full.push(Op::Pop);
+            full.push(Op::Pop);
+            if let Some(v) = replay(&full) {
+                return (true, v);
+            }
+        }
+        if s.len() < 7 {
+            for o in &alphabet {
+                let mut t = s.clone();
+                t.push(o.clone());
+                stack.push(t);
+            }
+        }
+    }
+    (false, format!("{} histories (<= 4 activations over 7 saliences incl. i32::MIN/MAX and +-2e9 with every creation order; add/pop interleavings of length <= 7), all in agenda order", tried))
+}
+
+/// flags in one agenda group: every 2- and 3-sequence of activations over rule {a,b} x salience {0,5} x activation group
+/// {-,X} x no_loop x lock_on_active (32 templates, incl. activation group AND lock-on-active on one activation),
+/// followed by each of a list of control scripts (fire all; fire, reset, fire; fire, re-add the first, fire; pop
+/// without marking; ...)
+fn c07_flags_one_group_search() -> (bool, String) {
+    let mut templates = Vec::new();
+    for rule in 0..2u8 {
+        for sal in [0, 5] {
+            for actg in [None, Some(0u8)] {
+                for no_loop in [false, true] {
+                    for lock in [false, true] {
+                        templates.push(T { rule, sal, ag: 0, actg, no_loop, lock });
+                    }
+                }
+            }
+        }
+    }
+    // scripts: 'F' fire, 'P' pop only, 'R' reset, '0'/'1'/'2' add a fresh copy of that template of the history
+    let scripts = ["FFFF", "FRFFF", "F0FFF", "FF1FF", "PFFF", "FFRFF", "F0RFFF", "FRF0FF", "FF0R1FFF", "F1F0FRFFF", "PPPP", "FP0FRFF"];
+    let mut tried = 0u64;
+    for n in 2..=3usize {
+        let mut idx = vec![0usize; n];
+        loop {
+            let adds: Vec<T> = idx.iter().map(|i| templates[*i]).collect();
+            for sc in &scripts {
+                let mut ops: Vec<Op> = adds.iter().map(|t| Op::Add(*t, None)).collect();
+                for ch in sc.chars() {
+                    ops.push(match ch {
+                        'F' => Op::Fire,
+                        'P' => Op::Pop,
+                        'R' => Op::Reset,
+                        d => Op::Add(adds[(d as usize - '0' as usize).min(n - 1)], None),
+                    });
+                }
+                tried += 1;
+                if let Some(v) = replay(&ops) {
+                    return (true, v);
+                }
+            }
+            let mut k = 0;
+            while k < n {
+                idx[k] += 1;
+                if idx[k] < templates.len() {
+                    break;
+                }
+                idx[k] = 0;
+                k += 1;
+            }
+            if k == n {
+                break;
+            }
+        }
+    }
+    (false, format!("{} histories (2-3 activations over 32 flag/group/salience templates x {} control scripts), no-loop / activation-group / order as the reference", tried, scripts.len()))
+}
+
+/// agenda groups and focus: 2-3 activations over rule {a,b} x salience {0,5} x agenda group {MAIN,G} x lock_on_active
+/// (no_loop false) followed by every control sequence of length <= 4 (<= 3 for three activations) over
+/// {fire, set_focus(G), set_focus(MAIN), reset} and two trailing fires
+fn c07_focus_search() -> (bool, String) {
+    let mut templates = Vec::new();
+    for rule in 0..2u8 {
+        for sal in [0, 5] {
+            for ag in 0..2u8 {
+                for lock in [false, true] {
+                    templates.push(T { rule, sal, ag, actg: None, no_loop: false, lock });
+                }
+            }
+        }
+    }
+    let control = [Op::Fire, Op::Focus(1), Op::Focus(0), Op::Reset];
+    let mut tried = 0u64;
+    for n in 2..=3usize {
+        let max_c = if n == 2 { 4 } else { 3 };
+        let mut seqs: Vec<Vec<Op>> = vec![];
+        let mut stack: Vec<Vec<Op>> = vec![vec![]];
+        while let Some(s) = stack.pop() {
+            if !s.is_empty() {
+                seqs.push(s.clone());
+            }
+            if s.len() < max_c {
+                for o in &control {
+                    let mut t = s.clone();
+                    t.push(o.clone());
+                    stack.push(t);
+                }
+            }
+        }
+        let mut idx = vec![0usize; n];
+        loop {
+            for sq in &seqs {
+                let mut ops: Vec<Op> = idx.iter().map(|i| Op::Add(templates[*i], None)).collect();
+                ops.extend(sq.iter().cloned());
+                ops.push(Op::Fire);
+                ops.push(Op::Fire);
+                tried += 1;
+                if let Some(v) = replay(&ops) {
+                    return (true, v);
+                }
+            }
+            let mut k = 0;
+            while k < n {
+                idx[k] += 1;
+                if idx[k] < templates.len() {
+                    break;
+                }
+                idx[k] = 0;
+                k += 1;
+            }
+            if k == n {
+                break;
+            }
+        }
+    }
+    (false, format!("{} histories (2-3 activations over two agenda groups x every control sequence over fire / set_focus / reset), focused group and order as the reference", tried))
+}
+
+/// fixed-seed pseudo-random histories of 14 operations over the whole alphabet (3 rules, 7 saliences, 3 agenda groups,
+/// 2 activation groups, both flags, fire / pop / set_focus / reset / clear)
+fn c07_mixed_history_search() -> (bool, String) {
+    let mut s: u64 = 0x9E37_79B9_7F4A_7C15;
+    let mut rnd = move |n: u64| -> u64 {
+        s ^= s << 13;
+        s ^= s >> 7;
+        s ^= s << 17;
+        (s >> 11) % n
+    };
+    let n_hist = 60_000u64;
+    for _ in 0..n_hist {
+        let mut ops = Vec::new();
+        let small = rnd(2) == 0; // half of the histories draw from a small alphabet so that collisions are frequent
+        for _ in 0..14 {
+            let r = rnd(100);
+            ops.push(if r < 45 {
+                let t = if small {
+                    T { rule: rnd(2) as u8, sal: [0, 5][rnd(2) as usize], ag: rnd(2) as u8, actg: [None, Some(0u8)][rnd(2) as usize], no_loop: rnd(2) == 0, lock: rnd(3) == 0 }
+                } else {
+                    T {
+                        rule: rnd(3) as u8,
+                        sal: SAL[rnd(7) as usize],
+                        ag: [0, 0, 1, 2][rnd(4) as usize],
+                        actg: [None, None, Some(0u8), Some(1u8)][rnd(4) as usize],
+                        no_loop: rnd(2) == 0,
+                        lock: rnd(4) == 0,
+                    }
+                };
+                Op::Add(t, None)
+            } else if r < 75 {
+                Op::Fire
+            } else if r < 80 {
+                Op::Pop
+            } else if r < 90 {
+                Op::Focus(rnd(3) as u8)
+            } else if r < 98 {
+                Op::Reset
+            } else {
+                Op::Clear
+            });
+        }
+        if let Some(v) = replay(&ops) {
+            // shrink: drop operations one at a time while the history still fails
+            let mut cur = ops.clone();
+            let mut msg = v;
+            let mut progress = true;
+            while progress {
+                progress = false;
+                for i in 0..cur.len() {
+                    let mut t = cur.clone();
+                    t.remove(i);
+                    if let Some(v2) = replay(&t) {
+                        cur = t;
+                        msg = v2;
+                        progress = true;
+                        break;
+                    }
+                }
+            }
+            return (true, msg);
+        }
+    }
+    (false, format!("{} fixed-seed histories of 14 operations over the whole alphabet, all as the reference", n_hist))
+}
+
+// ------------------------------------------------------------------------------------------------ termination
+
+const WATCHDOG: Duration = Duration::from_secs(20);
+
+/// runs `f` in a thread; Err(reason) if it panics or does not deliver within the watchdog
+fn guarded<F: FnOnce() -> usize + Send + 'static>(f: F) -> Result<usize, String> {
+    let (tx, rx) = mpsc::channel();
+    std::thread::spawn(move || {
+        let n = f();
+        let _ = tx.send(n);
+    });
+    match rx.recv_timeout(WATCHDOG) {
+        Ok(n) => Ok(n),
+        Err(mpsc::RecvTimeoutError::Timeout) => Err("did not return within 20 s".to_string()),
+        Err(mpsc::RecvTimeoutError::Disconnected) => Err("panicked instead of returning".to_string()),
+    }
+}
+
+fn always(field: &str) -> ReteUlNode {
+    ReteUlNode::UlAlpha(AlphaNode { field: field.to_string(), operator: ">".to_string(), value: "0".to_string() })
+}
+
+/// action variants: 0 = changes a field every time, 1 = changes nothing, 2 = changes something only the first time
+const VARIANTS: [&str; 3] = ["action changes a field every time", "action changes nothing", "action changes something only the first time"];
+
+fn typed_action(variant: usize, key: &'static str) -> impl Fn(&mut TypedFacts, &mut rust_rule_engine::rete::ActionResults) + Send + Sync + 'static {
+    let calls = AtomicUsize::new(0);
+    move |facts, _| {
+        let n = calls.fetch_add(1, Ordering::SeqCst);
+        match variant {
+            0 => facts.set(key, 1000 + n as i64),
+            2 if n == 0 => facts.set(key, 1000i64),
+            _ => {}
+        }
+    }
+}
+
+fn c07_fire_all_terminates() -> (bool, String) {
+    let mut done = Vec::new();
+    for variant in 0..3usize {
+        for rules in 1..=2usize {
+            // --- IncrementalEngine (bound: 1000 activations taken from the agenda)
+            for facts in 1..=2usize {
+                let r = guarded(move || {
+                    let mut e = IncrementalEngine::new();
+                    for k in 0..rules {
+                        e.add_rule(
+                            TypedReteUlRule {
+                                name: format!("always{}", k),
+                                node: always("T.x"),
+                                priority: k as i32,
+                                no_loop: false,
+                                action: Arc::new(typed_action(variant, "T.n")),
+                            },
+                            vec!["T".to_string()],
+                        );
+                    }
+                    for f in 0..facts {
+                        let mut t = TypedFacts::new();
+                        t.set("x", 1i64 + f as i64);
+                        t.set("n", 0i64);
+                        e.insert("T".to_string(), t);
+                    }
+                    e.fire_all().len()
+                });
+                let what = format!("IncrementalEngine, {} always-true rule(s) T.x > 0 with no_loop=false, {} fact(s) T{{x,n}}, {}", rules, facts, VARIANTS[variant]);
+                match r {
+                    Err(why) => return (true, format!("{}: fire_all() {}", what, why)),
+                    Ok(n) if n > 1000 => return (true, format!("{}: fire_all() reported {} firings, its iteration bound is 1000", what, n)),
+                    Ok(n) => done.push(format!("Incremental/{}r/{}f/v{}={}", rules, facts, variant, n)),
+                }
+            }
+            // --- TypedReteUlEngine (bound: 100 rounds, each fires every matching rule once)
+            let r = guarded(move || {
+                let mut e = TypedReteUlEngine::new();
+                e.set_fact("x", 1i64);
+                e.set_fact("n", 0i64);
+                for k in 0..rules {
+                    e.add_rule_with_action(format!("always{}", k), always("x"), k as i32, false, typed_action(variant, "n"));
+                }
+                e.fire_all().len()
+            });
+            let what = format!("TypedReteUlEngine, facts x=1 n=0, {} always-true rule(s) x > 0 with no_loop=false, {}", rules, VARIANTS[variant]);
+            match r {
+                Err(why) => return (true, format!("{}: fire_all() {}", what, why)),
+                Ok(n) if n > 100 * rules => return (true, format!("{}: fire_all() reported {} firings, its bound is 100 rounds of {} rule(s)", what, n, rules)),
+                Ok(n) => done.push(format!("Typed/{}r/v{}={}", rules, variant, n)),
+            }
+            // --- ReteUlEngine (bound: 100 rounds)
+            let r = guarded(move || {
+                let mut e = ReteUlEngine::new();
+                e.set_fact("x".to_string(), "1".to_string());
+                e.set_fact("n".to_string(), "0".to_string());
+                for k in 0..rules {
+                    let calls = AtomicUsize::new(0);
+                    e.add_rule_with_action(format!("always{}", k), always("x"), k as i32, false, move |facts| {
+                        let n = calls.fetch_add(1, Ordering::SeqCst);
+                        match variant {
+                            0 => {
+                                facts.insert("n".to_string(), (1000 + n).to_string());
+                            }
+                            2 if n == 0 => {
+                                facts.insert("n".to_string(), "1000".to_string());
+                            }
+                            _ => {}
+                        }
+                    });
+                }
+                e.fire_all().len()
+            });
+            let what = format!("ReteUlEngine, facts x=1 n=0, {} always-true rule(s) x > 0 with no_loop=false, {}", rules, VARIANTS[variant]);
+            match r {
+                Err(why) => return (true, format!("{}: fire_all() {}", what, why)),
+                Ok(n) if n > 100 * rules => return (true, format!("{}: fire_all() reported {} firings, its bound is 100 rounds of {} rule(s)", what, n, rules)),
+                Ok(n) => done.push(format!("ReteUl/{}r/v{}={}", rules, variant, n)),
+            }
+        }
+    }
+    // --- IncrementalEngine: the action asserts a new matching fact every time (the agenda keeps growing)
+    let r = guarded(|| {
+        let mut e = IncrementalEngine::new();
+        e.add_rule(
+            TypedReteUlRule {
+                name: "spawn".to_string(),
+                node: always("T.x"),
+                priority: 0,
+                no_loop: false,
+                action: Arc::new(|_, results| {
+                    let mut t = TypedFacts::new();
+                    t.set("x", 1i64);
+                    results.add(rust_rule_engine::rete::ActionResult::InsertFact { fact_type: "T".to_string(), data: t });
+                }),
+            },
+            vec!["T".to_string()],
+        );
+        let mut t = TypedFacts::new();
+        t.set("x", 1i64);
+        e.insert("T".to_string(), t);
+        e.fire_all().len()
+    });
+    let what = "IncrementalEngine, always-true rule T.x > 0 with no_loop=false whose action inserts a new fact T{x:1} every time, one initial fact";
+    match r {
+        Err(why) => return (true, format!("{}: fire_all() {}", what, why)),
+        Ok(n) if n > 1000 => return (true, format!("{}: fire_all() reported {} firings, its iteration bound is 1000", what, n)),
+        Ok(n) => done.push(format!("Incremental/spawning={}", n)),
+    }
+    // --- the same through the GRL loader: an always-true rule without no-loop whose action rewrites the matched fact
+    for (label, grl) in [
+        ("counter incremented every time", "rule \"Loop\" salience 1 { when T.x > 0 then T.n = T.n + 1; }"),
+        ("field set to the same constant every time", "rule \"Loop\" { when T.x > 0 then T.n = 7; }"),
+        ("two mutually re-enabling rules", "rule \"Up\" { when T.x > 0 then T.n = 1; } rule \"Down\" { when T.x > 0 then T.n = 2; }"),
+    ] {
+        let r = guarded(move || {
+            let mut e = IncrementalEngine::new();
+            if GrlReteLoader::load_from_string(grl, &mut e).is_err() {
+                return usize::MAX;
+            }
+            let mut t = TypedFacts::new();
+            t.set("x", 1i64);
+            t.set("n", 0i64);
+            e.insert("T".to_string(), t);
+            e.fire_all().len()
+        });
+        let what = format!("IncrementalEngine loaded from GRL `{}` ({}), one fact T{{x:1,n:0}}", grl, label);
+        match r {
+            Err(why) => return (true, format!("{}: fire_all() {}", what, why)),
+            Ok(usize::MAX) => done.push(format!("GRL({})=not loaded", label)),
+            Ok(n) if n > 1000 => return (true, format!("{}: fire_all() reported {} firings, its iteration bound is 1000", what, n)),
+            Ok(n) => done.push(format!("GRL({})={}", label, n)),
+        }
+    }
+    (false, format!("every fire_all returned within its bound; firings: {}", done.join(" ")))
+}
+
+/// rule sets with extreme priorities: two always-true rules (no_loop = true, so one round suffices), one of them with
+/// priority i32::MIN / i32::MAX, on the three engines
+fn c07_fire_all_extreme_priority() -> (bool, String) {
+    let mut done = Vec::new();
+    let mut bad: Vec<String> = Vec::new();
+    for (pa, pb) in [(i32::MIN, 0), (i32::MAX, i32::MIN + 1), (-2_000_000_000, 2_000_000_000)] {
+        let r = guarded(move || {
+            let mut e = TypedReteUlEngine::new();
+            e.set_fact("x", 1i64);
+            e.add_rule_with_action("A".to_string(), always("x"), pa, true, |_, _| {});
+            e.add_rule_with_action("B".to_string(), always("x"), pb, true, |_, _| {});
+            e.fire_all().len()
+        });
+        match r {
+            Err(why) => bad.push(format!("TypedReteUlEngine, fact x=1, rules A (x > 0, priority {}, no-loop) and B (x > 0, priority {}, no-loop): fire_all() {}", pa, pb, why)),
+            Ok(n) => done.push(format!("Typed({},{})={}", pa, pb, n)),
+        }
+        let r = guarded(move || {
+            let mut e = ReteUlEngine::new();
+            e.set_fact("x".to_string(), "1".to_string());
+            e.add_rule_with_action("A".to_string(), always("x"), pa, true, |_| {});
+            e.add_rule_with_action("B".to_string(), always("x"), pb, true, |_| {});
+            e.fire_all().len()
+        });
+        match r {
+            Err(why) => bad.push(format!("ReteUlEngine, fact x=1, rules A (x > 0, priority {}, no-loop) and B (x > 0, priority {}, no-loop): fire_all() {}", pa, pb, why)),
+            Ok(n) => done.push(format!("ReteUl({},{})={}", pa, pb, n)),
+        }
+        let r = guarded(move || {
+            let mut e = IncrementalEngine::new();
+            for (name, p) in [("A", pa), ("B", pb)] {
+                e.add_rule(TypedReteUlRule { name: name.to_string(), node: always("T.x"), priority: p, no_loop: true, action: Arc::new(|_, _| {}) }, vec!["T".to_string()]);
+            }
+            let mut t = TypedFacts::new();
+            t.set("x", 1i64);
+            e.insert("T".to_string(), t);
+            e.fire_all().len()
+        });
+        match r {
+            Err(why) => bad.push(format!("IncrementalEngine, fact T{{x:1}}, rules A (T.x > 0, priority {}, no-loop) and B (priority {}, no-loop): fire_all() {}", pa, pb, why)),
+            Ok(n) => done.push(format!("Incremental({},{})={}", pa, pb, n)),
+        }
+    }
+    if !bad.is_empty() {
+        return (true, bad.join(" || "));
+    }
+    (false, format!("every fire_all returned: {}", done.join(" ")))
+}
+
 pub fn witnesses() -> Vec<crate::W> {
-    vec![]
+    vec![
+        ("c07_order_extreme_salience_search", c07_order_extreme_salience_search as fn() -> (bool, String)),
+        ("c07_flags_one_group_search", c07_flags_one_group_search as fn() -> (bool, String)),
+        ("c07_focus_search", c07_focus_search as fn() -> (bool, String)),
+        ("c07_mixed_history_search", c07_mixed_history_search as fn() -> (bool, String)),
+        ("c07_fire_all_terminates", c07_fire_all_terminates as fn() -> (bool, String)),
+        ("c07_fire_all_extreme_priority", c07_fire_all_extreme_priority as fn() -> (bool, String)),
+    ]
 }
